@@ -37,7 +37,8 @@ LONG = {
     'Deterministic(repeat)': 'repeating the sequential reference call (same or new process) gave different bytes',
     'SharedReadOnly': 'a user-supplied option struct / exec.Cmd renders differently after the calls than before',
     'SharedReadOnly(sequential)': 'a single sequential call changed a user-supplied option struct / exec.Cmd',
-    'NoBlocking': 'a call did not make progress before the deadline while only OTHER calls were parked',
+    'NoBlocking': 'a call did not make progress before the deadline although nothing it depends on was outstanding '
+                  '(only OTHER calls were parked inside gates, or nothing else was running at all)',
     'NoDataRace': 'the Go race detector reported a data race inside the code under test',
     'Crash': 'the process died inside the code under test while the scenario ran (Go runtime fatal error such as concurrent '
              'map access, or a panic in a worker goroutine)',
@@ -195,9 +196,29 @@ REPO_MT = {'html': ['text/html'], 'css': ['text/css'], 'js': ['application/javas
            'json': ['application/json'], 'svg': ['image/svg+xml'], 'xml': ['text/xml', 'application/atom+xml']}
 
 
+# documents that make a minifier fail (the error text and the partial output must be as deterministic as a result) or
+# that nest differently from every catalogued shape; used by the sequential pass and the stress runs only
+HAND_EXTRA = [
+    ('application/javascript', b'var = ;'),
+    ('text/javascript', b'function f( { return 1 }'),
+    ('text/html', b'<p>x<script>var = ;</script><style>a{b:c}</style>'),
+    ('text/html', b'<div style="color:red" onclick="a b c">t</div><svg><style>x{y:z}</style></svg>'),
+    ('application/json', b'{"a": }'),
+    ('application/json', b'[1, 2'),
+    ('text/css', b'a{b:c'),
+    ('text/css', b'a { background: url(data:image/svg+xml;base64,!!!notbase64) }'),
+    ('text/xml', b'<a><b></a>'),
+    ('image/svg+xml', b'<svg><path d="M 0 0 L"/><style>a{b:</style>'),
+    ('image/svg+xml', b'<svg xmlns="http://www.w3.org/2000/svg"><script>var  a = 1;</script><style>b{c:d}</style></svg>'),
+    ('text/html', b'<iframe><p> a  b </p><style>i{f:r}</style></iframe><script type=module>import  x  from "y"</script>'),
+]
+
+
 def repo_docs(ctx, pool, per_lang):
     """inputs of the repository's own table-driven tests (first string of each row)"""
     n = 0
+    for mt, b in HAND_EXTRA:
+        pool.extra.append((mt, pool.add(b)))
     for lang, mts in REPO_MT.items():
         try:
             rows = vlib.test_inputs(ctx, lang)
@@ -575,7 +596,7 @@ def identity(sc, pool):
     return d
 
 
-def rerun_alone(ctx, exe, pool, sc, attempts, deadline_ms=90000):
+def rerun_alone(ctx, exe, pool, sc, attempts, deadline_ms=60000):
     """re-run one scenario in a fresh process (with its own reference calls) and re-validate.
     returns (lines, rejects) of the first attempt that is rejected again, else (None, [])"""
     for a in range(attempts):
@@ -813,7 +834,8 @@ def _run(ctx, exe, quick, rnd, mc_info):
     chosen, per_cat = [], {}
     for sid in sorted(bad, key=lambda x: (x not in pinned_ids, len(bad[x]), x)):
         cat = (by_id[sid]['kind'], tuple(sorted(set(w for _, w in bad[sid]))))
-        if sid in pinned_ids or (per_cat.get(cat, 0) < 2 and len(chosen) < 10 + len(pinned_ids)):
+        limit = 1 if 'NoBlocking' in cat[1] else 2      # blocked scenarios cost a full deadline each
+        if sid in pinned_ids or (per_cat.get(cat, 0) < limit and len(chosen) < 7 + len(pinned_ids)):
             per_cat[cat] = per_cat.get(cat, 0) + 1
             chosen.append(sid)
     ctx.coverage['rejected_scenarios_retried'] = len(chosen)
@@ -888,7 +910,7 @@ def _run(ctx, exe, quick, rnd, mc_info):
         'schedules and the stress runs, not by TLC; the detector keeps only a few accesses per 8-byte word, so option-struct '
         'mutation is additionally decided by rendering the structs before/after',
         'results are compared by SHA-256 of everything the entry point returned (bytes, error text; Match: pattern, params, nil-ness, output of the returned func)',
-        '"blocks" verdicts use gates: the awaited event is always possible for correct code; deadline 30 s (90 s on the isolated re-run)',
+        '"blocks" verdicts use gates: the awaited event is always possible for correct code; deadline 30 s (60 s on the isolated re-run)',
         'registration concurrent with use is outside the property (ConcNeg_reg_* documents the re-entrant RLock deadlock)',
     ]
 
